@@ -3,6 +3,7 @@ import MosnVerif.Lemmas.UpdatesRm
 import MosnVerif.Lemmas.UpdatesMode
 import MosnVerif.Lemmas.DumpScript
 import MosnVerif.Lemmas.RouterLocksConc
+import MosnVerif.Lemmas.ResourceUpd
 /-!
 # C12 — runtime updates are coherent and reproducible from the dumped config (property theorems only)
 
@@ -759,5 +760,64 @@ example : Inv exOracle stA ∧ stA.wrappers "r" = some wA ∧
     (∀ t, named "r" ((fun t => if t = 0 then MOp.addRoute "a.b" (rt "y") else MOp.update cfgB) t)) :=
   ⟨inv_run _ _, by decide, fun t => by by_cases h : t = 0 <;> simp [h, named, cfgB]⟩
 end lockWitness
+
+/-! ## resource thresholds of an updated cluster (circuit breakers): thresholds follow the latest configuration, counters survive
+
+`ResourceUpd.Op` = cluster updates through either mutator (any cluster type, any `circuit_breakers` list: absent, empty, several
+entries, zero thresholds), host updates, removal, `Increase` / `Decrease` of any resource by requests in flight.
+`updateResourceValue` and `UpdateClusterResourceManagerHandler` are regenerated (`Gen.ResourceUpd`). -/
+section resources
+open MosnVerif.Model MosnVerif.Gen.ResourceUpd
+
+/-- **thresholds_follow_latest_config**: after EVERY history the live thresholds (all four, zero = unlimited included) are those
+of a fresh cluster built from the dumped configuration — present on both sides or on neither —, and right after a cluster update
+(whatever came before: other limits, requests in flight, removals) they are exactly the thresholds of that update's
+configuration: the first `circuit_breakers` entry, the defaults (0) without one. -/
+theorem thresholds_follow_latest_config (ops : List ResourceUpd.Op) :
+    ResourceUpd.liveMax (ResourceUpd.run ops) = ResourceUpd.rebuilt (ResourceUpd.run ops) ∧
+    ∀ via cfg, ResourceUpd.liveMax (ResourceUpd.run (ops ++ [.update via cfg])) = some (ResourceUpd.newRM cfg.cb) ∧
+      ResourceUpd.rebuilt (ResourceUpd.run (ops ++ [.update via cfg])) = some (ResourceUpd.newRM cfg.cb) := by
+  refine ⟨ResourceUpd.inv_runFrom _ ops ResourceUpd.inv_init, fun via cfg => ?_⟩
+  simp [ResourceUpd.run, ResourceUpd.runFrom_append, ResourceUpd.runFrom, ResourceUpd.step, ResourceUpd.liveMax,
+    ResourceUpd.rebuilt, ResourceUpd.handler_max]
+
+/-- **counters_survive_update**: from every state (reachable or not) with a live cluster, an update through either mutator that
+keeps the cluster type leaves all four `current` counters exactly as they were (the old manager object is handed over), while the
+thresholds become the new ones. -/
+theorem counters_survive_update (s : ResourceUpd.State) (l : ResourceUpd.Live) (via : ResourceUpd.Via) (cfg : ResourceUpd.Cfg)
+    (hl : s.live = some l) (ht : l.typ = cfg.typ) :
+    ResourceUpd.liveCur (ResourceUpd.step s (.update via cfg)) = some l.rm.cur ∧
+    ResourceUpd.liveMax (ResourceUpd.step s (.update via cfg)) = some (ResourceUpd.newRM cfg.cb) := by
+  simp [ResourceUpd.step, ResourceUpd.liveCur, ResourceUpd.liveMax, hl, ResourceUpd.handler_cur _ _ _ ht, ResourceUpd.handler_max]
+
+/-- the model's step-by-step observation of every history satisfies the driver's predicate `ResourceUpd.Spec.holds` -/
+theorem spec_rsrc_holds_on_model (ops : List ResourceUpd.Op) :
+    ResourceUpd.Spec.holds ops (ResourceUpd.trace ResourceUpd.init ops) = true :=
+  ResourceUpd.holdsFrom_model ResourceUpd.init ops ResourceUpd.inv_init
+
+/-- **skip_zero_keeps_old_limit** (negation witness, machine-checked): with `updateResourceValue` skipping zero thresholds
+("do not lift the limits of a busy cluster") an update that drops `max_connections` (5 → absent) leaves 5 in force on the live
+manager while the configuration — and a fresh start from its dump — has no limit; the regenerated function stores the 0. -/
+theorem skip_zero_keeps_old_limit :
+    ResourceUpd.updateSkipZero ⟨5, 0, 7, 0⟩ (ResourceUpd.newRM []) = ⟨5, 0, 7, 0⟩ ∧
+    ResourceUpd.updateSkipZero ⟨5, 0, 7, 0⟩ (ResourceUpd.newRM []) ≠ ResourceUpd.newRM [] ∧
+    updateResourceValue ⟨5, 0, 7, 0⟩ (ResourceUpd.newRM []) = ResourceUpd.newRM [] := by decide
+
+-- non-vacuity: a history with limits set, requests in flight, limits dropped and set again, removal and re-creation
+def rhist : List ResourceUpd.Op :=
+  [.update .primary ⟨0, [⟨5, 0, 7, 1⟩]⟩, .setHosts true, .incr .conn, .incr .req, .incr .pend, .update (.andHost true) ⟨0, []⟩,
+   .decr .conn, .update .primary ⟨0, [⟨0, 3, 0, 0⟩, ⟨9, 9, 9, 9⟩]⟩, .update .primary ⟨1, [⟨2, 2, 2, 2⟩]⟩, .remove,
+   .update .primary ⟨0, []⟩]
+example : (ResourceUpd.run (rhist.take 6)).live.map (·.rm) = some ⟨⟨0, 0, 0, 0⟩, ⟨1, 0, 1, 0⟩⟩ := by decide
+example : (ResourceUpd.run (rhist.take 8)).live.map (·.rm) = some ⟨⟨0, 3, 0, 0⟩, ⟨1, 0, 1, 0⟩⟩ := by decide
+example : (ResourceUpd.run (rhist.take 9)).live.map (·.rm) = some ⟨⟨2, 2, 2, 2⟩, ⟨0, 0, 0, 0⟩⟩ := by decide
+example : (ResourceUpd.run (rhist.take 10)).live = none ∧ (ResourceUpd.run rhist).live.map (·.rm.max) = some ⟨0, 0, 0, 0⟩ := by decide
+-- counters_survive_update's hypotheses
+example : ∃ l, (ResourceUpd.run (rhist.take 5)).live = some l ∧ l.typ = (⟨0, []⟩ : ResourceUpd.Cfg).typ ∧ l.rm.cur = ⟨1, 0, 1, 0⟩ :=
+  ⟨_, rfl, rfl, by decide⟩
+-- the predicate is not trivially true: the skip-zero outcome of `rhist.take 6` is rejected
+example : ResourceUpd.Spec.stepOk (some (⟨⟨5, 0, 7, 1⟩, ⟨1, 1, 1, 0⟩⟩, 0)) (.update (.andHost true) ⟨0, []⟩)
+    ⟨.ok, some ⟨⟨5, 0, 7, 1⟩, ⟨1, 1, 1, 0⟩⟩, some ⟨⟨5, 0, 7, 1⟩, ⟨1, 1, 1, 0⟩⟩, some ⟨0, 0, 0, 0⟩⟩ = false := by decide
+end resources
 
 end MosnVerif.Props.C12
